@@ -8,7 +8,10 @@ Local Open Scope Z_scope.
 (** a case is either one EndBlocker call on a prepared state or a history of steps on one keeper *)
 Inductive case :=
 | CSingle (p : params) (st : state) (h : Z) (obs : outcome)
-| CHist (p : params) (e : henv) (rates0 : list rate_entry) (steps : list (hstep * hobs)).
+| CHist (p : params) (e : henv) (rates0 : list rate_entry) (steps : list (hstep * hobs))
+(** parameter acceptance: Params.Validate result, MsgEditOracleParams result (None = not applicable),
+    stored parameters as expected afterwards *)
+| CParams (p : params) (validate_ok : bool) (edit_ok : option bool) (stored_ok : bool).
 Definition mkCase := CSingle.
 
 (** the ExchangeRates store is compared as a list sorted by pair (its iteration order) *)
@@ -57,13 +60,20 @@ Fixpoint hist_cmp (p : params) (e : henv) (s : hstate) (l : list (hstep * hobs))
       hstep_agrees res o && match res with None => true | Some (s', _) => hist_cmp p e s' r end
   end.
 
+(** the code accepts exactly the parameter values of [Spec.params_valid], directly and through an edit;
+    a rejected edit changes nothing *)
+Definition params_accept_ok (p : params) (v : bool) (ed : option bool) (st : bool) : bool :=
+  Bool.eqb (params_valid p) v && match ed with None => true | Some b => Bool.eqb (params_valid p) b end && st.
+
 Definition mismatch (c : case) : bool :=
   match c with
   | CSingle p st h obs => negb (outcome_eqb (end_block true p st h) obs)
   | CHist p e rs steps => negb (hist_cmp p e (mkHS rs [] []) steps)
+  | CParams p v ed st => negb (params_accept_ok p v ed st)
   end.
 Definition violates (c : case) : bool :=
   match c with
   | CSingle p st h obs => negb (Pb p st h obs)
   | CHist p e rs steps => negb (Pb_hist p e rs [] [] steps)
+  | CParams p v ed st => negb (params_accept_ok p v ed st)
   end.
